@@ -361,7 +361,14 @@ func (r *transport) handleCacheHit(
 	if swr, swrValid := ccResp.StaleWhileRevalidate(); freshness.IsStale && swrValid && !reqWantsValidation {
 		staleFor := age - freshness.UsefulLife
 		if staleFor >= 0 && staleFor < swr {
-			return r.handleStaleWhileRevalidate(req, stored, urlKey, freshness, ccReq)
+			resp, err := r.handleStaleWhileRevalidate(req, stored, urlKey, freshness, ccReq)
+			if err == nil && isRespNoCacheQualified {
+				// Qualified no-cache: fields must not be served without validation
+				for field := range respNoCacheFieldsSeq {
+					resp.Header.Del(field)
+				}
+			}
+			return resp, err
 		}
 	}
 
